@@ -206,7 +206,7 @@ def h_refstate(env, patt):
     """solver given a reference-state override: the symmetry expectation must refer to the same state as the energy"""
     from tangelo.algorithms.variational import BuiltInAnsatze
     molecule = mol("H2")
-    opts = dict(molecule=molecule, qubit_mapping="jw", ansatz=BuiltInAnsatze.UCCSD, ref_state=[0, 1, 1, 0])
+    opts = dict(molecule=molecule, qubit_mapping="jw", ansatz=BuiltInAnsatze.UCCSD, ref_state=[1, 0, 1, 0])
     try:
         s = make_solver(env, opts)
         th = vec(env, "th", patt)
@@ -244,7 +244,7 @@ def shapes(tier, seed):
             out.append(Shape(f"symmetry/S2/H2/{mp}/utd={int(utd)}", h_symmetry,
                              dict(opts=dict(molecule_key="H2", qubit_mapping=mp, up_then_down=utd, ansatz=BuiltInAnsatze.UCCSD), patt="ss", n=n, which="S^2"),
                              modules=MODS, max_paths=64))
-    out.append(Shape("energy/hea/qubitH", h_energy, dict(opts=dict(ansatz=BuiltInAnsatze.HEA, ansatz_options={"n_qubits": 2, "n_layers": 1}),
+    out.append(Shape("energy/hea/qubitH", h_energy, dict(opts=dict(ansatz=BuiltInAnsatze.HEA, ansatz_options={"n_qubits": 2, "n_layers": 1, "reference_state": "zero"}),
                                                          patt="sss" + "0" * 9, n=2, hkind="hea"), modules=MODS, max_paths=64))
     out.append(Shape("energy/circuit/qubitH", h_energy, dict(opts=dict(), patt="sss", n=2, hkind="circuit"), modules=MODS, max_paths=64))
     out.append(Shape("canary/energy/sign", h_energy, dict(opts=dict(), patt="sss", n=2, hkind="circuit", canary=True), modules=MODS, canary=True, max_paths=64))
